@@ -126,6 +126,109 @@ Theorem C08_canon_idempotent : forall s, canon (canon s) = canon s.
 Proof. exact canon_idem. Qed.
 Print Assumptions C08_canon_idempotent.
 
+(* ---- wire level of the query string: url.QueryEscape / Values.Encode / url.ParseQuery as
+        modelled byte by byte (Model/C08.v), validated against net/url on every run ---- *)
+
+(* every byte string comes back from its escaping *)
+Theorem C08_escape_roundtrip : forall s, query_unescape (query_escape s) = Some s.
+Proof. exact unescape_escape. Qed.
+Print Assumptions C08_escape_roundtrip.
+
+(* encode then parse gives the same pairs in the same order - any bytes in names and values,
+   repeated names, empty names, empty values; hence the same multimap with the order of the
+   values of every key preserved *)
+Theorem C08_parse_encode_roundtrip : forall ps, parse_query (encode_pairs ps) = ps.
+Proof. exact parse_encode_pairs. Qed.
+Print Assumptions C08_parse_encode_roundtrip.
+
+Theorem C08_parse_distributes : forall a b,
+  parse_query (a ++ String amp b) = (parse_query a ++ parse_query b)%list.
+Proof. exact parse_query_amp. Qed.
+Print Assumptions C08_parse_distributes.
+
+(* the RawQuery written by the load balancer parses to the pairs of the url_pattern text followed
+   by the pairs of the Query map: nothing injected, nothing lost, for every text and every map *)
+Theorem C08_wire_render : forall sraw q,
+  parse_query (render_raw sraw q) = (parse_query sraw ++ flatten q)%list.
+Proof. exact parse_render_raw. Qed.
+Print Assumptions C08_wire_render.
+
+(* the pair-level model is the wire-level model read through ParseQuery *)
+Theorem C08_wire_refines_pairs : forall c sraw r,
+  parse_query sraw = c_static c ->
+  group (parse_query (outgoing_raw c sraw r)) = o_query (outgoing c r).
+Proof. exact wire_refines_pairs. Qed.
+Print Assumptions C08_wire_refines_pairs.
+
+(* C08's query statement at the wire, no hypothesis: under every key a backend that parses its
+   RawQuery reads the values written in url_pattern followed by the client's values when both
+   lists allow the key, and by nothing otherwise *)
+Theorem C08_wire_query_exact : forall c sraw r k,
+  getl k (group (parse_query (outgoing_raw c sraw r))) =
+  (vals_of k (parse_query sraw) ++
+   (if allowed_ep_qb c k && allowed_be_qb c k then client_q r k else []))%list.
+Proof. exact wire_query_exact. Qed.
+Print Assumptions C08_wire_query_exact.
+
+(* the order in which the keys of the Query map are written (Values.Encode sorts them, Go maps
+   have none) cannot be observed by a backend that parses and groups *)
+Theorem C08_key_order_irrelevant : forall sraw (m m' : hmap) k,
+  NoDup (keys m) -> NoDup (keys m') -> (forall x, getl x m = getl x m') ->
+  getl k (group (parse_query (render_raw sraw m))) = getl k (group (parse_query (render_raw sraw m'))).
+Proof. exact key_order_irrelevant. Qed.
+Print Assumptions C08_key_order_irrelevant.
+
+(* ---- GraphQL backends (the stage between the filters and the rendering) ---- *)
+
+(* the allow lists bind a GraphQL backend as they bind a plain one; besides the gateway's four
+   headers it sees only the stage's own Content-Type and Content-Length *)
+Theorem C08_gql_headers_sound : forall g c r h,
+  sent_h (outgoing_gql g c r) h <> [] ->
+  own h \/ gql_own_hb g h = true \/
+  (allowed_ep_h c h /\ allowed_be_h c h /\ sent_h (outgoing_gql g c r) h = client_h r h).
+Proof. exact gql_headers_sound_model. Qed.
+Print Assumptions C08_gql_headers_sound.
+
+Theorem C08_gql_headers_complete : forall g c r h,
+  allowed_ep_h c h -> allowed_be_h c h -> ~ overwritten (canon h) -> gql_own_hb g (canon h) = false ->
+  client_h r h <> [] -> sent_h (outgoing_gql g c r) (canon h) = client_h r h.
+Proof. exact gql_headers_complete_model. Qed.
+Print Assumptions C08_gql_headers_complete.
+
+(* the stage's two headers carry its own values whatever the client sent and the lists say
+   (they are written after the backend filter) *)
+Theorem C08_gql_own_headers : forall g c r, gql_own_headers g (outgoing_gql g c r).
+Proof. exact gql_own_headers_model. Qed.
+Print Assumptions C08_gql_own_headers.
+
+(* query: with the GET transport the three GraphQL parameters carry the operation's values - a
+   client query / operationName / variables never reaches the backend, allowed or not; every
+   other key, and every key with the POST transport, is as for a plain backend *)
+Theorem C08_gql_query_exact : forall g c r,
+  NoDup (keys (gql_opq g)) -> (forall k, mem k (gql_opq g) = true -> str_mem k gql_keys = true) ->
+  forall k, sent_q (outgoing_gql g c r) k =
+    (static_q c k ++ (if gql_own_qb g k then getl k (gql_opq g) else fwd_q c r k))%list.
+Proof. exact gql_query_exact_model. Qed.
+Print Assumptions C08_gql_query_exact.
+
+(* a plain backend is the GNone instance, and the stage sits where newStack_names puts it *)
+Theorem C08_gql_none_is_plain : forall c r, outgoing_gql GNone c r = outgoing c r.
+Proof. exact outgoing_gql_none. Qed.
+Print Assumptions C08_gql_none_is_plain.
+
+Theorem C08_gql_stage_position :
+  map (fun n => (n, stage_of n)) (firstn 4 (skipn 2 (rev newStack_names))) =
+  [("NewFilterQueryStringsMiddleware", SFilterQuery); ("NewFilterHeadersMiddleware", SFilterHeaders);
+   ("NewGraphQLMiddleware", SNeutral); ("NewLoadBalancedMiddlewareWithSubscriberAndLogger", SRender)].
+Proof. exact gql_stage_position. Qed.
+Print Assumptions C08_gql_stage_position.
+
+Theorem C08_gql_model_meets_oracle : forall g c r,
+  NoDup (keys (gql_opq g)) -> (forall k, mem k (gql_opq g) = true -> str_mem k gql_keys = true) ->
+  spec_gql_b g c r (outgoing_gql g c r) = true.
+Proof. exact gql_model_meets_oracle. Qed.
+Print Assumptions C08_gql_model_meets_oracle.
+
 (* ---- the oracle ---- *)
 
 (* the boolean oracle evaluated on the implementation's observations decides the Prop ... *)
@@ -204,3 +307,35 @@ Proof. vm_compute. reflexivity. Qed.
 Example C08_ex_canon :
   canon "x-forwarded-FOR" = "X-Forwarded-For" /\ canon "not a token" = "not a token" /\ canon "*" = "*".
 Proof. repeat split. Qed.
+
+(* wire level: reserved bytes, an empty name, repeated names; a malformed client text *)
+Example C08_ex_wire :
+  outgoing_raw ex_cfg "s=1&x=0" ex_req = "s=1&x=0&x=1&x=" /\
+  encode_pairs [("k&=", "a b"); ("", "%"); ("k&=", "")] = "k%26%3D=a+b&=%25&k%26%3D=" /\
+  parse_query "a=1&&b=x+y&c&=v&d=1;e=2&k=%zz&z=%3d" = [("a", "1"); ("b", "x y"); ("c", ""); ("", "v"); ("z", "=")].
+Proof. repeat split; vm_compute; reflexivity. Qed.
+
+(* the two maps of C08_key_order_irrelevant can differ *)
+Example C08_ex_key_order :
+  render_raw "" [("a", ["1"]); ("b", ["2"])] <> render_raw "" [("b", ["2"]); ("a", ["1"])].
+Proof. vm_compute. discriminate. Qed.
+
+(* GraphQL, GET transport: the client's query/variables are dropped although both lists allow
+   them; a is forwarded; the hypotheses of C08_gql_query_exact hold of this operation *)
+Example C08_ex_gql_get :
+  let g := GGet [("query", ["{hero}"]); ("operationName", ["Hero"])] in
+  let c := {| c_adapter := Mux; c_ep_headers := ["*"]; c_ep_query := ["*"]; c_be_headers := ["x-a"];
+              c_be_query := ["a"; "query"; "variables"]; c_static := [] |} in
+  let r := {| r_lines := [("X-A", "1"); ("Content-Type", "text/plain")];
+              r_query := [("a", "1"); ("query", "{evil}"); ("variables", "{}")]; r_host := "gw"; r_ip := "i"; r_ua := "K" |} in
+  outgoing_gql g c r =
+  {| o_headers := [("Content-Type", ["application/json"]); ("Content-Length", ["0"]); ("X-A", ["1"])];
+     o_query := [("a", ["1"]); ("query", ["{hero}"]); ("operationName", ["Hero"])] |} /\
+  NoDup (keys (gql_opq g)) /\ (forall k, mem k (gql_opq g) = true -> str_mem k gql_keys = true).
+Proof.
+  cbv zeta. split; [vm_compute; reflexivity|split].
+  - repeat constructor; simpl; intuition discriminate.
+  - intros k. unfold mem, gql_opq. simpl.
+    destruct (str_eqb k "query") eqn:E1; [apply str_eqb_eq in E1; subst; reflexivity|].
+    destruct (str_eqb k "operationName") eqn:E2; [apply str_eqb_eq in E2; subst; reflexivity|discriminate].
+Qed.
